@@ -6,6 +6,11 @@ import (
 	"fmt"
 	"os"
 
+	"github.com/99designs/gqlgen/api"
+	"github.com/99designs/gqlgen/codegen/config"
+	"github.com/99designs/gqlgen/plugin/stubgen"
+
+	"verifharness/engines/c01"
 	"verifharness/engines/c08"
 	"verifharness/engines/c10"
 	"verifharness/engines/c14"
@@ -15,6 +20,7 @@ import (
 )
 
 var engines = map[string]func(*gen.Ctx) error{
+	"c01": c01.Run,
 	"c03": pipe.RunAs("C03"),
 	"c07": pipe.RunAs("C07"),
 	"c09": pipe.RunAs("C09"),
@@ -30,6 +36,10 @@ func main() {
 		os.Exit(2)
 	}
 	name := os.Args[1]
+	if name == "gen" {
+		runGenerator(os.Args[2:])
+		return
+	}
 	fs := flag.NewFlagSet(name, flag.ExitOnError)
 	out := fs.String("out", "", "output directory")
 	tier := fs.String("tier", "quick", "quick|thorough")
@@ -52,6 +62,39 @@ func main() {
 	ctx := &gen.Ctx{OutDir: *out, Tier: *tier, Seed: *seed, Replay: *replay}
 	if err := run(ctx); err != nil {
 		fmt.Fprintln(os.Stderr, "engine error:", err)
+		os.Exit(3)
+	}
+}
+
+// runGenerator: vh gen DIR [STUBFILE] — gqlgen's generator (api.Generate from /repo's current tree plus
+// the stubgen plugin) in a probe module directory. Run as a subprocess by the probe factory.
+func runGenerator(args []string) {
+	if len(args) < 1 {
+		fmt.Fprintln(os.Stderr, "usage: vh gen DIR [STUB]")
+		os.Exit(2)
+	}
+	if err := os.Chdir(args[0]); err != nil {
+		fmt.Fprintln(os.Stderr, err)
+		os.Exit(2)
+	}
+	defer func() {
+		if r := recover(); r != nil {
+			fmt.Fprintln(os.Stderr, "GENERATOR PANIC:", r)
+			os.Exit(4)
+		}
+	}()
+	cfg, err := config.LoadConfigFromDefaultLocations()
+	if err != nil {
+		fmt.Fprintln(os.Stderr, "config:", err)
+		os.Exit(3)
+	}
+	cfg.SkipModTidy = true
+	stub := "graph/stub.go"
+	if len(args) > 1 {
+		stub = args[1]
+	}
+	if err := api.Generate(cfg, api.AddPlugin(stubgen.New(stub, "Stub"))); err != nil {
+		fmt.Fprintln(os.Stderr, "generate:", err)
 		os.Exit(3)
 	}
 }
